@@ -176,3 +176,50 @@ func referrersFlowFacts(lf *leanFile) {
 	lf.def("refUpdateCalls", "List String", leanStrList(order))
 	lf.def("refUpdateOnDeleteError", "List String", leanStrList(nested))
 }
+
+// capabilityFacts: every place of registry/remote that takes the address of, or assigns to,
+// the referrersState field, with the operation applied there.
+func capabilityFacts(lf *leanFile) {
+	var rows []string
+	for _, rel := range []string{"registry/remote/repository.go", "registry/remote/referrers.go", "registry/remote/registry.go", "registry/remote/manifest.go"} {
+		f := parseFile(rel)
+		if f == nil {
+			continue
+		}
+		for _, d := range f.Decls {
+			fd, ok := d.(*ast.FuncDecl)
+			if !ok || fd.Body == nil {
+				continue
+			}
+			ast.Inspect(fd.Body, func(n ast.Node) bool {
+				switch x := n.(type) {
+				case *ast.CallExpr:
+					for _, a := range x.Args {
+						if u, ok := a.(*ast.UnaryExpr); ok && strings.HasSuffix(exprString(u.X), ".referrersState") {
+							row := fd.Name.Name + ":" + exprString(x.Fun)
+							if len(x.Args) >= 2 && strings.Contains(exprString(x.Fun), "CompareAndSwap") {
+								row += ":" + exprString(x.Args[1])
+							}
+							rows = append(rows, row)
+						}
+					}
+				case *ast.AssignStmt:
+					for _, l := range x.Lhs {
+						if strings.HasSuffix(exprString(l), ".referrersState") {
+							rows = append(rows, fd.Name.Name+":assign")
+						}
+					}
+				case *ast.KeyValueExpr:
+					if id, ok := x.Key.(*ast.Ident); ok && id.Name == "referrersState" {
+						rows = append(rows, fd.Name.Name+":literal")
+					}
+				}
+				return true
+			})
+		}
+	}
+	if len(rows) == 0 {
+		miss("registry/remote: uses of referrersState")
+	}
+	lf.def("referrersStateUses", "List String", leanStrList(rows))
+}
